@@ -1,7 +1,5 @@
 package main
 
-func c35()     {}
 func c30()     {}
 func c29()     {}
-func c35Host() {}
 func c29Host() {}
